@@ -432,7 +432,7 @@ func vRsErr(err error) string { return vErrClass(err) }
 
 // indices (into the shrinking shadow list) of the pending entries one gatherOutbound call removed, in an order the
 // queue discipline allows and that agrees with the TSNs the real code assigned
-func (h *vRs) selection(x int, before uint32) []uint32 {
+func (h *vRs) selection(x int, before uint32, reqSids []uint16) []uint32 {
 	e := h.e[x]
 	a := e.a
 	a.lock.Lock()
@@ -459,33 +459,51 @@ func (h *vRs) selection(x int, before uint32) []uint32 {
 			}
 		}
 	} else {
-		// per-stream FIFO; streams interleave as the scheduler chose: data in TSN order, a marker before the next
-		// data chunk of its own stream that was queued behind it
-		var data []*chunkPayloadData
+		// per-stream FIFO; streams interleave as the scheduler chose: data in TSN order, markers in the order the new
+		// request lists them, merged so that every entry leaves as the oldest of its stream
+		var data, markers []*chunkPayloadData
 		for _, c := range popped {
 			if !isMarker(c) {
 				data = append(data, c)
 			}
 		}
 		sort.Slice(data, func(i, j int) bool { return data[i].tsn-before < data[j].tsn-before })
-		pos := map[*chunkPayloadData]int{}
-		for i, c := range e.shadow {
-			pos[c] = i
-		}
 		used := map[*chunkPayloadData]bool{}
-		for _, d := range data {
+		for _, sid := range reqSids {
 			for _, m := range popped {
-				if isMarker(m) && !used[m] && m.streamIdentifier == d.streamIdentifier && pos[m] < pos[d] {
+				if isMarker(m) && !used[m] && m.streamIdentifier == sid {
 					used[m] = true
-					order = append(order, m)
+					markers = append(markers, m)
+					break
 				}
 			}
-			order = append(order, d)
 		}
-		for _, m := range popped {
-			if isMarker(m) && !used[m] {
-				order = append(order, m)
+		done := map[*chunkPayloadData]bool{}
+		oldest := func(c *chunkPayloadData) bool {
+			for _, o := range popped {
+				if o.streamIdentifier == c.streamIdentifier && !done[o] {
+					return o == c
+				}
 			}
+			return false
+		}
+		di, mi := 0, 0
+		for di < len(data) || mi < len(markers) {
+			switch {
+			case mi < len(markers) && oldest(markers[mi]):
+				order = append(order, markers[mi])
+				done[markers[mi]] = true
+				mi++
+			case di < len(data) && oldest(data[di]):
+				order = append(order, data[di])
+				done[data[di]] = true
+				di++
+			default:
+				h.t.Fatalf("rs: no per-stream FIFO order explains what left the pending queue")
+			}
+		}
+		if len(order) != len(popped) {
+			h.t.Fatalf("rs: %d entries left the pending queue, %d explained (markers in the request: %v)", len(popped), len(order), reqSids)
 		}
 	}
 	want := before
@@ -655,7 +673,19 @@ func (h *vRs) exec(op []string) {
 		before := e.a.myNextTSN
 		e.a.lock.Unlock()
 		raws := h.rawGather(x)
-		sel := h.selection(x, before)
+		var reqSids []uint16 // identifiers of the request created in this pass, in the order their markers were popped
+		for _, r := range raws {
+			if q := vRsAsRequest(r); q != nil {
+				known := false
+				for _, old := range e.reqs {
+					known = known || old.rsn == q.reconfigRequestSequenceNumber
+				}
+				if !known {
+					reqSids = q.streamIdentifiers
+				}
+			}
+		}
+		sel := h.selection(x, before, reqSids)
 		// RECONFIG requests retransmitted in one pass leave in Go map order: canonical order is by request number
 		for i := 0; i < len(raws); {
 			j := i
@@ -889,7 +919,9 @@ func (g *vRsGen) net(n int, stale int) {
 }
 
 // a healed network: everything outstanding is delivered, timers fire when nothing else moves
-func (g *vRsGen) settle(rounds int, closeOnEOF bool) {
+func (g *vRsGen) settle(rounds int, closeOnEOF bool) { g.settleT(rounds, closeOnEOF, true) }
+
+func (g *vRsGen) settleT(rounds int, closeOnEOF bool, timers bool) {
 	h := g.h
 	for k := 0; k < rounds; k++ {
 		moved := false
@@ -904,6 +936,9 @@ func (g *vRsGen) settle(rounds int, closeOnEOF bool) {
 				moved = true
 			}
 			g.app(1-x, closeOnEOF)
+		}
+		if !moved && !timers {
+			return
 		}
 		if !moved {
 			fired := false
@@ -1184,7 +1219,7 @@ func vRsScriptD16(g *vRsGen) {
 		g.deliver(1, i)
 	}
 	g.app(1, true) // EOF at the reader, which closes its side
-	g.settle(10, true)
+	g.settleT(10, true, false) // no timer expiry: the held response stays the only answer to the request
 	if held < 0 || !h.quiet(1) {
 		g.st("script.d16.not_quiet")
 		return
